@@ -235,6 +235,12 @@ def slim(c):
 
 
 def judge(run, cases, rows, details, verbose=False):
+    # payload class: the unmutated fixture (empty payload) of each leaf is the baseline; a failure that
+    # the baseline shows too is not attributed to the payload
+    base_ok = {}
+    for c in cases:
+        if c["class"] == "payload" and (c.get("payload") or {}).get("accepted") and not c["payload"]["add"] and c["id"] in rows:
+            base_ok[(c["payload"]["field"], c["flags"]["plus"])] = bool(rows[c["id"]][2])
     for c in cases:
         o = c["obs"]
         if o.get("error"):
@@ -262,7 +268,21 @@ def judge(run, cases, rows, details, verbose=False):
                 run.failing({"kind": "payload-configurator-error", "field": pl["field"]}, [slim(c)],
                             "the Configurator returned an error for an accepted value of %s + %r (case %d): %s" % (pl["field"], bytes(pl["add"]).decode("latin1"), c["id"], e[:200]),
                             theorem="Configurator AddOrUpdate*")
-            if not spec:
+            if not spec and not pl["add"]:
+                _, bad, ar, du, _n = details[cid]
+                for fname in bad:
+                    run.failing({"kind": "malformed", "cause": "fixture"}, [slim(c)],
+                                "generated file %s is not well-formed (payload fixture for %s, unmutated, case %d)" % (fname, pl["field"], cid),
+                                theorem="Lex.Check.wf_conf")
+                for fname, problem, what in ar:
+                    run.failing({"kind": problem, "directive": what.split("=")[0]}, [slim(c)],
+                                "generated file %s: %s problem at directive %r (payload fixture for %s, unmutated, case %d)" % (fname, problem, what, pl["field"], cid),
+                                theorem="Lex.Check.arity_errors")
+                for kind, scope, ident in du:
+                    run.failing({"kind": "duplicate", "ident": kind, "scheme": dup_scheme(c, kind, scope, ident)}, [slim(c)],
+                                "identifier defined twice: %s %r in scope %s (payload fixture for %s, unmutated, case %d)" % (kind, ident, scope, pl["field"], cid),
+                                theorem="Lex.Check.dup_idents")
+            elif not spec and base_ok.get((pl["field"], c["flags"]["plus"]), True):
                 _, bad, ar, du, _n = details[cid]
                 run.failing({"kind": "payload-breaks-file", "field": pl["field"]}, [slim(c)],
                             "value accepted by the real validator breaks the generated configuration: %s + %r on %s (case %d): malformed=%s problems=%s duplicates=%s"
